@@ -129,6 +129,8 @@ Proof.
 Qed.
 
 Definition keys_of (d : doc) : list key := map fst (d_responses d).
+(* the keys that are read as status codes: all but specification extensions *)
+Definition skeys (d : doc) : list key := status_keys (keys_of d).
 
 Lemma in_all_opts keys o :
   In o (flat_map expand_key keys) <-> exists k e, In k keys /\ key_expansion k e /\ o = py_int e.
@@ -143,25 +145,25 @@ Qed.
 Lemma status_iff d r :
   status_check d r = Ok [FUndefinedStatus] <->
   (~ In (KStr s_default) (keys_of d)
-   /\ (forall k e, In k (keys_of d) -> key_expansion k e -> py_int e <> None)
-   /\ (forall k, In k (keys_of d) -> ~ code_matches k (status r))).
+   /\ (forall k e, In k (skeys d) -> key_expansion k e -> py_int e <> None)
+   /\ (forall k, In k (skeys d) -> ~ code_matches k (status r))).
 Proof.
-  unfold status_check. fold (keys_of d).
+  unfold status_check. fold (keys_of d). fold (skeys d).
   destruct (existsb is_default_key (keys_of d)) eqn:Ed.
   - apply has_default_spec in Ed. split; [discriminate | intros [H _]; contradiction].
   - assert (Hnd : ~ In (KStr s_default) (keys_of d)) by (intros H; apply has_default_spec in H; congruence).
-    unfold all_codes. destruct (sequence (flat_map expand_key (keys_of d))) as [codes|] eqn:Es.
+    unfold all_codes. destruct (sequence (flat_map expand_key (skeys d))) as [codes|] eqn:Es.
     + apply sequence_some in Es.
-      assert (Hwf : forall k e, In k (keys_of d) -> key_expansion k e -> py_int e <> None).
+      assert (Hwf : forall k e, In k (skeys d) -> key_expansion k e -> py_int e <> None).
       { intros k e Hk He Hn.
-        assert (Hin : In (py_int e) (flat_map expand_key (keys_of d))) by (apply in_all_opts; exists k, e; auto).
+        assert (Hin : In (py_int e) (flat_map expand_key (skeys d))) by (apply in_all_opts; exists k, e; auto).
         rewrite Es, Hn in Hin. apply in_map_iff in Hin. destruct Hin as [x [Hx _]]. discriminate. }
-      assert (Hmem : In (Z.of_N (status r)) codes <-> exists k, In k (keys_of d) /\ code_matches k (status r)).
+      assert (Hmem : In (Z.of_N (status r)) codes <-> exists k, In k (skeys d) /\ code_matches k (status r)).
       { split.
-        - intros H. assert (Hin : In (Some (Z.of_N (status r))) (flat_map expand_key (keys_of d))) by (rewrite Es; apply in_map; exact H).
+        - intros H. assert (Hin : In (Some (Z.of_N (status r))) (flat_map expand_key (skeys d))) by (rewrite Es; apply in_map; exact H).
           apply in_all_opts in Hin. destruct Hin as [k [e [Hk [He Hp]]]]. exists k. split; [exact Hk|]. exists e. auto.
         - intros [k [Hk [e [He Hp]]]].
-          assert (Hin : In (Some (Z.of_N (status r))) (flat_map expand_key (keys_of d))) by (apply in_all_opts; exists k, e; auto).
+          assert (Hin : In (Some (Z.of_N (status r))) (flat_map expand_key (skeys d))) by (apply in_all_opts; exists k, e; auto).
           rewrite Es in Hin. apply in_map_iff in Hin. destruct Hin as [x [Hx Hi]]. inversion Hx. subst. exact Hi. }
       destruct (zmem (Z.of_N (status r)) codes) eqn:Ez.
       * apply zmem_in in Ez. split; [discriminate|]. intros [_ [_ Hno]]. apply Hmem in Ez. destruct Ez as [k [Hk Hm]]. exfalso. exact (Hno k Hk Hm).
@@ -174,17 +176,17 @@ Qed.
 
 Lemma status_crash_iff d r :
   status_check d r = Crash EValueError <->
-  (~ In (KStr s_default) (keys_of d) /\ exists k e, In k (keys_of d) /\ key_expansion k e /\ py_int e = None).
+  (~ In (KStr s_default) (keys_of d) /\ exists k e, In k (skeys d) /\ key_expansion k e /\ py_int e = None).
 Proof.
-  unfold status_check. fold (keys_of d).
+  unfold status_check. fold (keys_of d). fold (skeys d).
   destruct (existsb is_default_key (keys_of d)) eqn:Ed.
   - apply has_default_spec in Ed. split; [discriminate | intros [H _]; contradiction].
   - assert (Hnd : ~ In (KStr s_default) (keys_of d)) by (intros H; apply has_default_spec in H; congruence).
-    unfold all_codes. destruct (sequence (flat_map expand_key (keys_of d))) as [codes|] eqn:Es.
+    unfold all_codes. destruct (sequence (flat_map expand_key (skeys d))) as [codes|] eqn:Es.
     + split.
       * destruct (zmem _ _); discriminate.
       * intros [_ [k [e [Hk [He Hp]]]]]. apply sequence_some in Es.
-        assert (Hin : In (py_int e) (flat_map expand_key (keys_of d))) by (apply in_all_opts; exists k, e; auto).
+        assert (Hin : In (py_int e) (flat_map expand_key (skeys d))) by (apply in_all_opts; exists k, e; auto).
         rewrite Es, Hp in Hin. apply in_map_iff in Hin. destruct Hin as [x [Hx _]]. discriminate.
     + split; [|reflexivity]. intros _. split; [exact Hnd|]. apply sequence_none in Es. apply in_all_opts in Es.
       destruct Es as [k [e [Hk [He Hp]]]]. exists k, e. auto.
@@ -290,7 +292,8 @@ Proof.
   intros H. unfold lookup_spec, lookup_str. destruct (lookup_by (str_is (dec c)) (d_responses d)); [reflexivity|].
   rewrite find_none_all; [reflexivity|]. intros [k x] Hin. cbn [fst].
   unfold no_wildcard_keys in H. rewrite forallb_forall in H. specialize (H k (in_map fst _ _ Hin)).
-  destruct (is_default_key k); cbn in *; [rewrite andb_false_r; reflexivity|]. 
+  destruct (is_default_key k); cbn in *; [rewrite andb_false_r; reflexivity|].
+  destruct (is_extension_key k); cbn in *; [rewrite andb_false_r; reflexivity|].
   destruct (has_x k); [discriminate | reflexivity].
 Qed.
 
@@ -380,13 +383,14 @@ Qed.
 
 Lemma status_agree d r : keys_parse d = true -> status_check d r = spec_status_check d r.
 Proof.
-  intros Hk. unfold status_check, spec_status_check. fold (keys_of d).
+  intros Hk. unfold status_check, spec_status_check. fold (keys_of d). fold (skeys d).
   destruct (existsb is_default_key (keys_of d)) eqn:Ed; [reflexivity|].
-  assert (Hall : forallb is_some (flat_map expand_key (keys_of d)) = true).
-  { rewrite forallb_flat_map. unfold keys_parse in Hk. fold (keys_of d) in Hk. rewrite <- Hk.
+  assert (Hall : forallb is_some (flat_map expand_key (skeys d)) = true).
+  { rewrite forallb_flat_map. unfold keys_parse in Hk. fold (keys_of d) in Hk. fold (skeys d) in Hk. rewrite <- Hk.
     apply forallb_ext_in. intros k Hin.
     assert (is_default_key k = false).
     { destruct (is_default_key k) eqn:E; [|reflexivity].
+      unfold skeys, status_keys in Hin. apply filter_In in Hin. destruct Hin as [Hin _].
       assert (existsb is_default_key (keys_of d) = true) by (apply existsb_exists; exists k; auto). congruence. }
     rewrite H. reflexivity. }
   unfold all_codes. destruct (sequence_total _ Hall) as [cs Hcs]. rewrite Hcs.
@@ -631,18 +635,22 @@ Lemma refuted_int_key :
   /\ verdict none_valid hnone d_f3 r_f3 = [] /\ spec_verdict none_valid hnone d_f3 r_f3 = [FUndefinedCT].
 Proof. vm_compute. repeat split. Qed.
 
-(* F4: a vendor extension key next to 200: status_code_conformance raises *)
+(* F4 (fixed by e29caab0): a specification extension next to 200.  The sentinel (the code before the fix) raises,
+   the code as it is passes, and the input now lies inside every region *)
 Definition d_f4 := doc30 [(KStr [50;48;48], RInline no_body); (KStr [120;45;101;120;116], RInline no_body)] [].
 Definition r_f4 := resp 200 None NotJson.
-Lemma refuted_extension_key :
-  region_flags d_f4 r_f4 = [false; true; true; false; true; true; true; true]
-  /\ status_check d_f4 r_f4 = Crash EValueError
-  /\ verdict none_valid hnone d_f4 r_f4 = [FCrash] /\ spec_verdict none_valid hnone d_f4 r_f4 = [].
+Lemma extension_key_fixed :
+  status_check_before_e29caab0 d_f4 r_f4 = Crash EValueError
+  /\ region_flags d_f4 r_f4 = [true; true; true; true; true; true; true; true]
+  /\ status_check d_f4 r_f4 = Ok []
+  /\ verdict none_valid hnone d_f4 r_f4 = [] /\ spec_verdict none_valid hnone d_f4 r_f4 = []
+  /\ status_check d_f4 (resp 404 None NotJson) = Ok [FUndefinedStatus].
 Proof. vm_compute. repeat split. Qed.
-(* the same without any x in the key *)
+(* F4b (still there): a key that is neither a status code pattern nor an extension *)
 Definition d_f4b := doc30 [(KStr [50;48;48], RInline no_body); (KStr [97;98;99], RInline no_body)] [].
 Lemma refuted_non_numeric_key :
   region_flags d_f4b r_f4 = [true; true; true; false; true; true; true; true]
+  /\ status_check d_f4b r_f4 = Crash EValueError
   /\ verdict none_valid hnone d_f4b r_f4 = [FCrash] /\ spec_verdict none_valid hnone d_f4b r_f4 = [].
 Proof. vm_compute. repeat split. Qed.
 
